@@ -1325,4 +1325,41 @@ example : (match load [⟨"abcd12", [], [], ["lib"]⟩, ⟨"ffff00", ["abcd12"],
                (match m.lookup "abcd" with | none => true | some _ => false)
     | .error _ => false) = true := by decide +kernel
 
+/-! ### `<branch>@<revision id>`: the revision when it is on the branch, an error otherwise -/
+
+/-- **`<branch>@<id>` never answers a revision outside the named branch — and answers the revision when it
+is on it**: for every loaded history, every branch name that is a key of the map for revision `br`
+and every full revision id `i`: `get_revisions("<branch>@<i>")` is `i` exactly when `i` shares `br`'s
+`down_revision` lineage (ancestor or descendant along the links written in the files,
+`sharesLineage_history`), and an error otherwise. -/
+theorem branch_id {h : Hist} {o : LoadOpts} {m : LMap} (hl : load h o = .ok m)
+    (L : String) (br : Id) (hb : BranchName m L br) (i : Id) (hi : i ∈ m.ids) (hp : Plain i) :
+    (sharesLineage m i [br] false = true → getRevisions m (L ++ "@" ++ i) = .ok [some i]) ∧
+    (sharesLineage m i [br] false = false → getRevisions m (L ++ "@" ++ i) = .error .resolution) := by
+  obtain ⟨hat, hne, h1, h2, h3, hlk⟩ := hb
+  have hLe : L.isEmpty = false := by
+    cases hq : L.isEmpty
+    · rfl
+    · exact absurd (String.isEmpty_iff.mp hq) hne
+  have hsplit := splitFirstAt_at L i hat
+  have hres : resolveRevisionNumber m 12 (L ++ "@" ++ i) = .ok ([i], some L) := by
+    unfold resolveRevisionNumber
+    simp [hsplit, hp.2.1, hp.2.2.1, hp.2.2.2.1, bind, Except.bind, pure, Except.pure]
+  have hrb : resolveBranch m 11 L = .ok (some br) := by unfold resolveBranch; simp [hlk]
+  constructor
+  · intro hs
+    have hrev : revisionForIdent m 12 i (some L) = .ok (some i) := by
+      unfold revisionForIdent
+      simp [hLe, hrb, lookup_id m i hi, hs, bind, Except.bind, pure, Except.pure]
+    unfold getRevisions resolveFuel
+    rw [hres]
+    simp [bind, Except.bind, pure, Except.pure, hp.2.2.2.2, hrev]
+  · intro hs
+    have hrev : revisionForIdent m 12 i (some L) = .error .resolution := by
+      unfold revisionForIdent
+      simp [hLe, hrb, lookup_id m i hi, hs, bind, Except.bind, pure, Except.pure, throw, throwThe, MonadExceptOf.throw]
+    unfold getRevisions resolveFuel
+    rw [hres]
+    simp [bind, Except.bind, pure, Except.pure, hp.2.2.2.2, hrev]
+
 end C16
